@@ -64,6 +64,9 @@ type childSpec struct {
 	// AutoState > 0: the child first saves a state of ten arrays of AutoState integers through AutoSave into a fresh
 	// working directory, measures how long AutoLoad of it takes, then runs the program with AutoLoad on and
 	// MaxDuration = DurPct percent of that load time (at least 1 ms).  Bound: load time + MaxDuration + slack.
+	Unrestricted  bool   `json:"unrestricted,omitempty"`    // extensions.Config.UnrestrictedIOs: exec and run are registered
+	AutoStateText string `json:"auto_state_text,omitempty"` // written to the auto-load file of a fresh working directory, AutoLoad on
+	KeepOut   bool `json:"keep_out,omitempty"` // report up to 32 kB of the printed output (ResOut)
 	NoReg     bool `json:"no_reg,omitempty"` // Options.NoReg: loop variables and integer parameters in plain variables
 	AutoState int `json:"auto_state,omitempty"`
 	DurPct    int `json:"dur_pct,omitempty"`
@@ -77,6 +80,7 @@ type childReport struct {
 	Errs     []string `json:"errs"`
 	ResLen   int      `json:"res_len"`
 	Res      string   `json:"res"` // first 64 bytes of the printed result
+	ResOut   string   `json:"res_out,omitempty"`
 	HWMkB    int64    `json:"hwm_kb"`
 	MemLimit int64    `json:"mem_limit"`
 	SrcLen   int      `json:"src_len"`
@@ -164,7 +168,7 @@ func childMain() {
 	}
 	log.SetLogLevelQuiet(log.Critical)
 	log.SetOutput(io.Discard)
-	if err := extensions.Init(&extensions.Config{HasLoad: true, HasSave: true}); err != nil {
+	if err := extensions.Init(&extensions.Config{HasLoad: true, HasSave: true, UnrestrictedIOs: sp.Unrestricted}); err != nil {
 		fmt.Println("child: init:", err)
 		os.Exit(3)
 	}
@@ -211,6 +215,14 @@ func childMain() {
 		sp.DurMs = max(1, int(loadMs*float64(sp.DurPct)/100))
 		o.MaxDuration = time.Duration(sp.DurMs) * time.Millisecond
 	}
+	if sp.AutoStateText != "" {
+		dir, err := os.MkdirTemp(".", "hostile")
+		if err != nil || os.Chdir(dir) != nil || os.WriteFile(repl.AutoSaveFile, []byte(sp.AutoStateText), 0o644) != nil {
+			fmt.Println("child: cannot prepare the saved state:", err)
+			os.Exit(3)
+		}
+		o.AutoLoad = true
+	}
 	t0 := time.Now()
 	ctx := context.Background()
 	if sp.CancelMs > 0 {
@@ -224,6 +236,9 @@ func childMain() {
 	wall := time.Since(t0)
 	rep := childReport{WallMs: float64(wall.Microseconds()) / 1000, ResLen: len(res), Res: trunc(res, 64), HWMkB: readHWM(),
 		MemLimit: debug.SetMemoryLimit(-1), SrcLen: len(src), LoadMs: loadMs, DurMs: sp.DurMs}
+	if sp.KeepOut {
+		rep.ResOut = trunc(res, 32<<10)
+	}
 	for _, e := range errs {
 		if len(e) > 160 {
 			e = e[:160]
@@ -382,7 +397,7 @@ var maxOverrun, maxRSSRatio, maxOverrunClean, maxRSSRatioClean float64
 
 // judge one child run; kind is the program family used in signatures
 func judge(c *Ctx, kind string, sp childSpec, r childResult, wantGuard string) {
-	cs := fmt.Sprintf("CHILD depth=%d dur=%dms cancel=%dms mem=%s api=%d autostate=%d durpct=%d noreg=%v compact=%v gen=%s n=%d src=%s", sp.MaxDepth, sp.DurMs, sp.CancelMs, r.memLimit, sp.ApiLimit, sp.AutoState, sp.DurPct, sp.NoReg, sp.Compact, sp.Gen, sp.N, Hx([]byte(trunc(sp.Src, 400))))
+	cs := fmt.Sprintf("CHILD depth=%d dur=%dms cancel=%dms mem=%s api=%d autostate=%d durpct=%d noreg=%v unrestricted=%v compact=%v gen=%s n=%d src=%s", sp.MaxDepth, sp.DurMs, sp.CancelMs, r.memLimit, sp.ApiLimit, sp.AutoState, sp.DurPct, sp.NoReg, sp.Unrestricted, sp.Compact, sp.Gen, sp.N, Hx([]byte(trunc(sp.Src, 400))))
 	c.Count("child:" + kind)
 	switch {
 	case r.killed:
@@ -922,6 +937,197 @@ func extensionsThenGuards(c *Ctx) {
 	}
 }
 
+// Every registered extension (enumerated at run time) called with the LARGEST arguments the budget admits: arrays of 12M
+// elements, strings of 8 MB, arrays of 2M strings (built by `*`), under a short deadline.  An extension callback is one evaluation step: the
+// context is not looked at while it runs, so its own run time is the overrun.  Baseline = the same program without the
+// call (operand construction only), so a slow machine does not alarm.
+const largePrelude = "big = [5,3,9,1,7,2,8,6]*1500000\nsb = \"abcdefgh\"*1000000\nbs = [\"ab\",\"c\"]*1000000\n" +
+	// warm-up: the first allocation of a result as large as `big` pays for fresh pages (about 1 s per 200 MB here), which is
+	// not the extension's doing; after it the heap has them
+	"w9 = big + [0]\nw9 = nil\nw9 = big + [0]\nw9 = nil\n"
+
+func extLargeCall(name string, e object.Extension) string {
+	n := max(e.MinArgs, 1) // all declared arguments, optional ones included (json_go's indent, regexp's flag ...)
+	if e.MaxArgs >= 0 {
+		n = e.MaxArgs
+	}
+	var args []string
+	for i := 0; i < n; i++ {
+		t := object.ANY
+		if i < len(e.ArgTypes) {
+			t = e.ArgTypes[i]
+		}
+		switch t {
+		case object.INTEGER:
+			args = append(args, "3")
+		case object.FLOAT:
+			args = append(args, "0.01")
+		case object.STRING:
+			args = append(args, "sb")
+		case object.ARRAY:
+			if name == "join" || name == "defun" {
+				args = append(args, "bs")
+			} else {
+				args = append(args, "big")
+			}
+		case object.BOOLEAN:
+			args = append(args, "true")
+		case object.MAP:
+			args = append(args, `{"a":big}`)
+		case object.FUNC:
+			args = append(args, "func(x){x}")
+		default:
+			args = append(args, "big")
+		}
+	}
+	return "r9 = catch(" + name + "(" + strings.Join(args, ",") + "))\n1"
+}
+
+const largeMem = "1GiB"
+
+func extensionsLargeArgs(c *Ctx) {
+	exts := object.ExtraFunctions()
+	names := make([]string, 0, len(exts))
+	// recorded findings (known_findings.json, ext-large:<name>:*): with operands this large these never come back in
+	// reasonable time on the unchanged tree; they would block the batch, so they only run alone, in the thorough tier
+	knownSlow := map[string]bool{"regexp": true, "regsub": true, "json_go": true, "defun": true}
+	var slowAlone []string
+	for n := range exts {
+		if n == "sleep" || n == "read" { // their duration is their argument / the input: covered by extensionsThenGuards
+			continue
+		}
+		if knownSlow[n] {
+			slowAlone = append(slowAlone, n)
+			continue
+		}
+		names = append(names, n)
+	}
+	sort.Strings(names)
+	sort.Strings(slowAlone)
+	// (1) one child: every extension called once on the large operands, each call timed from inside the program.  An
+	//     extension call is a single uninterruptible step, so its duration IS the worst overrun it can cause.
+	durs := map[string]float64{}
+	refused := []string{}
+	for start := 0; start < len(names); { // a memory-guard panic inside one call ends the program: resume after it
+		var b strings.Builder
+		b.WriteString(largePrelude)
+		for _, n := range names[start:] {
+			call := strings.TrimSuffix(extLargeCall(n, exts[n]), "\n1")
+			fmt.Fprintf(&b, "t0 = time.now()\n%s\nprintln(\"EXTDUR\", %q, time.now() - t0)\nr9 = nil\n", call, n)
+		}
+		b.WriteString("1")
+		sp := childSpec{Src: b.String(), MaxDepth: 300, DurMs: 120000, ASLimit: asLimit, KeepOut: true}
+		r := runChild(c, sp, largeMem, 150*time.Second)
+		judge(c, "ext-large-all", sp, r, "none memory")
+		seen := 0
+		for _, l := range strings.Split(r.rep.ResOut, "\n") {
+			f := strings.Fields(l)
+			if len(f) == 3 && f[0] == "EXTDUR" {
+				d, _ := strconv.ParseFloat(f[2], 64)
+				durs[strings.Trim(f[1], "\"")] = d * 1000
+				seen++
+			}
+		}
+		if !r.ok {
+			break
+		}
+		if start+seen >= len(names) {
+			break
+		}
+		refused = append(refused, names[start+seen]) // the call that did not come back (memory guard: a legitimate refusal)
+		start += seen + 1
+	}
+	c.Extra["ext_large_step_ms"] = durs
+	c.Extra["ext_large_refused_by_memory_guard"] = refused
+	if len(durs)+len(refused) != len(names) {
+		c.Fail("ext-large-all:incomplete", "all extensions on large operands", fmt.Sprintf("%d timed + %d refused of %d", len(durs), len(refused), len(names)))
+	}
+	var slow []string
+	for _, n := range names {
+		if durs[n] > slackMs {
+			slow = append(slow, n)
+		}
+	}
+	// (2) those whose single step is longer than the slack are measured again, alone (GC noise of the batch removed); the
+	//     smaller of the two samples is the step time.  Thorough: every extension alone as well, and the recorded findings.
+	timedAlone := func(n string, kill time.Duration) (float64, childSpec, childResult) {
+		call := strings.TrimSuffix(extLargeCall(n, exts[n]), "\n1")
+		src := largePrelude + "t0 = time.now()\n" + call + "\nprintln(\"EXTDUR\", \"" + n + "\", time.now() - t0)\n1"
+		sp := childSpec{Src: src, MaxDepth: 300, DurMs: 120000, ASLimit: asLimit, KeepOut: true}
+		r := runChild(c, sp, largeMem, kill)
+		d := -1.0
+		for _, l := range strings.Split(r.rep.ResOut, "\n") {
+			if f := strings.Fields(l); len(f) == 3 && f[0] == "EXTDUR" {
+				v, _ := strconv.ParseFloat(f[2], 64)
+				d = v * 1000
+			}
+		}
+		return d, sp, r
+	}
+	alone := slow
+	if c.Thorough() {
+		alone = append(append([]string{}, names...), slowAlone...)
+	}
+	final := map[string]float64{}
+	for _, n := range alone {
+		kill := 60 * time.Second
+		if knownSlow[n] {
+			kill = 12 * time.Second
+		}
+		d, sp, r := timedAlone(n, kill)
+		judge(c, "ext-large:"+n, sp, r, "none memory")
+		if d < 0 {
+			continue // no timing: killed or refused, judged above
+		}
+		if b, ok := durs[n]; ok && b < d {
+			d = b
+		}
+		final[n] = d
+		if d > slackMs {
+			c.Fail("ext-large:"+n+":step-overrun", fmt.Sprintf("CHILD depth=300 dur=120000ms cancel=0ms mem=%s api=0 autostate=0 durpct=0 noreg=false compact=false gen= n=0 src=%s", largeMem, Hx([]byte(sp.Src))),
+				fmt.Sprintf("one call of %s on the large operands is an uninterruptible step of %.0f ms (bound %.0f ms): a deadline that fires at its start is overrun by that much", n, d, slackMs))
+		}
+	}
+	c.Extra["ext_large_step_ms_confirmed"] = final
+}
+
+// Items reported by a reviewer on the unchanged tree (round 8): each reproduced by a family, then repaired or recorded.
+func reviewerItems(c *Ctx) {
+	// error objects made while a deep recursion unwinds: every level catches, so every level makes a new context error
+	sp := childSpec{Src: "func f(n){catch(f(n+1)); 1}; f(0)", MaxDepth: 0, DurMs: 50}
+	judge(c, "deep-stack-catch", sp, runChild(c, sp, "4GiB", 40*time.Second), "deadline depth")
+	// a recursive function with a very long body: what is held per level, and what an error costs
+	body := strings.Repeat("x=1; ", 5000)
+	sp = childSpec{Src: "func f(n){ " + body + " f(n+1) }; f(0)", MaxDepth: 2000, DurMs: 1000, ASLimit: asLimit}
+	judge(c, "rec-big-body", sp, runChild(c, sp, memLimitStr, 40*time.Second), "deadline depth")
+	// strings grown through extensions
+	for _, p := range []prog{
+		{"ext-grow-base64", `s="ab"*1000; for true {s=base64(s)}`, "memory deadline"},
+		{"ext-grow-json", `s="ab"*1000; for true {s=json(s)}`, "memory deadline"},
+		{"ext-grow-json-array", `a=["ab"*1000]; for true {a=[json(a)]}`, "memory deadline"},
+	} {
+		sp = childSpec{Src: p.src, MaxDepth: 400, DurMs: 500, ASLimit: asLimit}
+		judge(c, p.kind, sp, runChild(c, sp, memLimitStr, 20*time.Second), p.want)
+	}
+	// run / exec (unrestricted IO mode), no terminal: the command must not take the deadline away
+	for _, p := range []prog{
+		{"run-then-loop", "run(\"true\")\nfor true {}", "deadline"},
+		{"exec-then-loop", "exec(\"true\")\nfor true {}", "deadline"},
+		{"run-fails-then-loop", "catch(run(\"/nonexistent/cmd\"))\nfor true {}", "deadline"},
+		{"run-bad-arg-then-loop", "catch(run(\"true\", 1))\nfor true {}", "deadline"},
+	} {
+		sp = childSpec{Src: p.src, MaxDepth: 400, DurMs: 300, ASLimit: asLimit, Unrestricted: true}
+		judge(c, p.kind, sp, runChild(c, sp, memLimitStr, 8*time.Second), p.want)
+	}
+	if c.Thorough() {
+		// a saved state is evaluated line by line BEFORE the evaluation context exists and outside any recover
+		sp = childSpec{Src: "1", MaxDepth: 400, DurMs: 200, ASLimit: asLimit, AutoStateText: "x=1\nfor true {}\n"}
+		judge(c, "autoload-hostile-loop", sp, runChild(c, sp, memLimitStr, 8*time.Second), "")
+		sp = childSpec{Src: "1", MaxDepth: 400, DurMs: 200, ASLimit: asLimit, AutoStateText: "func g(){g()}\ng()\n"}
+		judge(c, "autoload-hostile-rec", sp, runChild(c, sp, memLimitStr, 30*time.Second), "")
+	}
+}
+
 type cfg struct {
 	depth, durMs int
 }
@@ -958,6 +1164,7 @@ func runC09(c *Ctx) {
 	}
 	knownFindings(c)
 	defaultDepth(c)
+	reviewerItems(c)
 
 	// 2. depth correspondence
 	depthCorrespondence(c)
@@ -1024,7 +1231,10 @@ func runC09(c *Ctx) {
 		if p.kind == "autoload-rec" && !c.Thorough() {
 			continue
 		}
-		pcts := []int{2, 100, 130}
+		pcts := []int{2, 100}
+		if p.kind == "autoload-loop-empty" {
+			pcts = []int{130}
+		}
 		if c.Thorough() {
 			pcts = []int{1, 2, 10, 50, 90, 100, 101, 110, 130, 300}
 		}
@@ -1043,8 +1253,11 @@ func runC09(c *Ctx) {
 	if c.Thorough() {
 		cfgs = []cfg{{10, 1}, {10, 1000}, {25, 5}, {50, 20}, {100, 50}, {150, 100}, {200, 200}, {300, 500}, {400, 1000}, {1000, 300}, {20000, 1000}}
 	}
-	for _, p := range sweepPrograms() {
-		for _, cf := range cfgs {
+	for pi, p := range sweepPrograms() {
+		for ci, cf := range cfgs {
+			if !c.Thorough() && ci == 1 && pi%3 != 0 {
+				continue // quick: the middle configuration only for every third family (repetition, not a family, dropped)
+			}
 			if strings.HasSuffix(p.kind, "-depth-adds") && cf.depth > 400 {
 				continue // 300 + 300 nested levels: only limits below 600 make the guard the expected outcome
 			}
@@ -1072,6 +1285,9 @@ func runC09(c *Ctx) {
 	// every registered extension once, then a loop / recursion / allocation that only a guard stops
 	extensionsThenGuards(c)
 
+	// every registered extension with the largest arguments the budget admits
+	extensionsLargeArgs(c)
+
 	// loops with nothing to evaluate in the body: every form x body, alternating registers on / off and deadline / cancellation
 	//   (quick: each (form, body) once, placement and options rotating; thorough: everything)
 	for i, el := range emptyBodyLoops() {
@@ -1092,6 +1308,9 @@ func runC09(c *Ctx) {
 	fams := boundedFamilies()
 	for fi, p := range fams {
 		dur := 200 + 100*(fi%3)
+		if !c.Thorough() {
+			dur = 120 + 40*(fi%3)
+		}
 		sp := childSpec{Src: p.src, MaxDepth: 400, DurMs: dur, ASLimit: asLimit}
 		early := func(r childResult, limit int) {
 			if r.ok && r.rep.WallMs < 0.5*float64(limit) {
@@ -1243,6 +1462,8 @@ func replay(c *Ctx) {
 		switch k {
 		case "depth":
 			sp.MaxDepth, _ = strconv.Atoi(v)
+		case "unrestricted":
+			sp.Unrestricted = v == "true"
 		case "noreg":
 			sp.NoReg = v == "true"
 		case "autostate":
